@@ -48,21 +48,20 @@ Theorem C04_delete_respects_finality : forall s h save env id,
   fin s < N.of_nat n /\ (Inv s -> block_at s (N.of_nat n) = Some id /\ length (chain s) = S n).
 Proof. exact delete_respects_finality. Qed.
 
-(* ---- mutator closure, regenerated from the source on every run ---- *)
-Theorem C04_mutator_sites_exact : found_sites = expected_sites.
+(* ---- mutator closure, regenerated from the source on every run (abstract interpretation, helpers inlined) ---- *)
+(* every exported step creates at most one batch, stages only into it (or into the batch it was given), commits it exactly once
+   and writes nothing to the database directly *)
+Theorem C04_steps_shape : found_steps = expected_steps.
 Proof. vm_compute. reflexivity. Qed.
 
-Theorem C04_durable_writers_exact : durable_writers found_sites = expected_durable.
+(* in the two packages: three database.Write call sites (AddBlock, RemoveBlock, ClearTempBlocks) and no direct database write,
+   not even through a parameter bound to the database handle *)
+Theorem C04_global_writes : found_global = expected_global.
 Proof. vm_compute. reflexivity. Qed.
 
-Theorem C04_delete_callers_pass_tip :
-  found_delete_calls = expected_delete_calls /\ forallb delete_arg_is_tip found_delete_calls = true.
-Proof. vm_compute. split; reflexivity. Qed.
-
-(* no function is handed the database handle where it writes through a parameter (interface-typed writers included) *)
-Theorem C04_no_database_as_writer_argument :
-  found_writer_args = expected_writer_args /\ existsb writer_arg_is_database found_writer_args = false.
-Proof. vm_compute. split; reflexivity. Qed.
+(* every block handed to deleteBlock (directly, through the syncers' reverter, through helpers) comes from LastBlock() *)
+Theorem C04_delete_origin : found_delete_origin = expected_delete_origin.
+Proof. vm_compute. reflexivity. Qed.
 
 (* non-vacuity: a history with a fork, a refused deletion at the finalized height and a restart *)
 Example C04_example :
